@@ -625,6 +625,20 @@ def fam_c18_logos(R, n):
             src = enum(['#[logos(%s)]' % ', '.join(perm)], ['#[regex("[a-z]+")] Id,', '#[token("=")] Eq,'])
             out.append(dict(family='c18-logos', src=src, meta=dict(group=gid, perm=list(perm))))
         gid += 1
+    # subpatterns whose names are prefixes of each other (hex / hexdigits, a / ab / abc), each with its own dependencies: every order
+    # that keeps a subpattern before its use
+    for (subs, uses) in [([('hexdigits', '[0-9a-f]+', []), ('escape', '\\\\x(?&hexdigits)', ['hexdigits']), ('prefix', '0x', []), ('hex', '(?&prefix)[0-9a-f]', ['prefix'])],
+                          '(?&escape)|(?&hex)'),
+                         ([('a', 'x', []), ('ab', '(?&a)y', ['a']), ('abc', '(?&ab)z', ['ab']), ('b', 'w', [])], '(?&abc)(?&b)(?&a)')]:
+        names = [n for n, _, _ in subs]
+        for perm in itertools.permutations(subs):
+            pos = {n: k for k, (n, _, _) in enumerate(perm)}
+            if any(pos[d] > pos[n] for (n, _, deps) in perm for d in deps):
+                continue
+            items = ['subpattern %s = %s' % (n, rust_str(p_)) for (n, p_, _) in perm]
+            src = enum(['#[logos(%s)]' % ', '.join(items)], ['#[regex(%s)] U,' % rust_str(uses), '#[token("=")] Eq,'])
+            out.append(dict(family='c18-logos-overlap', src=src, meta=dict(group=gid, perm=items)))
+        gid += 1
     # three or four skip items matching the same text with different (and partly equal) priorities: the order of the items is the
     # order of the leaves, which no decision may depend on (the winner and the ambiguity verdict of a DFA state)
     for its in [['skip("[ ]", priority = 1)', 'skip("[ \\t]", priority = 1)', 'skip("\\s", priority = 3)'],
@@ -831,6 +845,19 @@ def fam_c19(R, n_random):
         add(enum(['#[logos(utf8 = false)]'], ['#[regex(%s)] A,' % lit]), 'accept', None, 'byte literal border: regex')
         add(enum(['#[logos(utf8 = false)]', '#[logos(skip %s)]' % lit], ['#[token("zz")] Z,']), 'accept', None, 'byte literal border: skip')
         add(enum(['#[logos(utf8 = false)]', '#[logos(subpattern s = %s)]' % lit], ['#[regex("q(?&s)")] A,']), 'accept', None, 'byte literal border: subpattern')
+    # an item that has to be refused, written *after another item of the same attribute* (a group-form item, an assignment, a
+    # literal item, an empty item): whatever comes first must not make the parser stop reading
+    bad_items = [('skip ""', 'empty'), ('skip "a*"', 'empty'), ('skip("b?")', 'empty'), ('skip r"#.*"', None), ('skip "(?&nope)"', 'undef_subpattern'), ('skip "("', None),
+                 ('bogus = 1', None), ('skip "^x"', None)]
+    fronts = ['skip(" ")', 'skip("\\t", priority = 2)', 'error(MyErr)', 'error(MyErr, callback = mk)', 'extras = u8', 'skip "\\n"', 'subpattern d = "[0-9]"', 'utf8 = true', 'crate = logos']
+    for (bad, cls) in bad_items:
+        for front in fronts:
+            add(enum(['#[logos(%s, %s)]' % (front, bad)], ['#[token("q")] Q,']), 'reject', cls, 'item to be refused after `%s` in the same attribute' % front.split('(')[0].split(' ')[0])
+            add(enum(['#[logos(%s,, %s)]' % (front, bad)], ['#[token("q")] Q,']), 'any', None, 'item to be refused after `%s` and an empty item' % front.split('(')[0].split(' ')[0])
+    # ... and a named argument that has to be refused after a group-form argument of a variant attribute
+    for attr in ['#[token("let", ignore(case), priority = x)]', '#[regex("l+", ignore(case), colour = 1)]', '#[regex("l+", ignore(case), priority = 1, priority = 2)]',
+                 '#[token("t", ignore(case), callback(f))]', '#[regex(".*", ignore(case), allow_greedy = false)]']:
+        add(enum([], [attr + ' A,']), 'reject', None, 'argument to be refused after a group-form argument')
     # every rejection class in every attribute position (skip in both spellings, subpattern, byte-string literal)
     add(enum(['#[logos(skip("(?&nope)+"))]'], ['#[token("b")] B,']), 'reject', 'undef_subpattern', 'undefined subpattern in a skip')
     add(enum(['#[logos(skip "x(?&nope)")]'], ['#[token("b")] B,']), 'reject', 'undef_subpattern', 'undefined subpattern in a bare skip')
